@@ -15,6 +15,32 @@ from . import AnalysisError
 from . import rules
 
 
+def _second_reading(prop, tier, seed, root, mod, ctx):
+    """A shape that was not read (errors, no finding) is read once more on the helper-flattened program (kverif.flatten: an
+    exact source-to-source normalisation that undoes 'extract helper' / 'wrapper + worker').  The second reading replaces
+    the first only when it is complete (no error of its own); whatever it then reports is about the same program."""
+    if not ctx.result.errors or ctx.result.findings or os.environ.get("KVERIF_NO_FLATTEN") == "1":
+        return ctx
+    from .engine import Context
+    try:
+        ctx2 = Context(prop, tier, seed, root, flatten=True)
+        if not ctx2.flattened:
+            return ctx
+        mod.run(ctx2)
+        if ctx2.thorough and hasattr(mod, "run_thorough"):
+            mod.run_thorough(ctx2)
+    except AnalysisError:
+        return ctx
+    except Exception:
+        return ctx
+    if ctx2.result.errors:
+        return ctx
+    ctx2.result.note("first reading incomplete (" + "; ".join(e[:160] for e in ctx.result.errors[:3]) + "); decided on the helper-flattened program: "
+                     + "; ".join(f"{f} <- {', '.join(h)}" for f, h in sorted(ctx2.flattened.items())))
+    ctx2.result.analysed["flattened"] = {f: h for f, h in sorted(ctx2.flattened.items())}
+    return ctx2
+
+
 def run_check(prop: str, tier: str, seed: int, root=None) -> int:
     from .engine import Context
     from .report import Result
@@ -35,9 +61,13 @@ def run_check(prop: str, tier: str, seed: int, root=None) -> int:
         return r.finish()
     try:
         mod = rules.load(prop)
-        mod.run(ctx)
-        if ctx.thorough and hasattr(mod, "run_thorough"):
-            mod.run_thorough(ctx)
+        try:
+            mod.run(ctx)
+            if ctx.thorough and hasattr(mod, "run_thorough"):
+                mod.run_thorough(ctx)
+        except AnalysisError as e:
+            ctx.result.error(str(e))
+        ctx = _second_reading(prop, tier, seed, root, mod, ctx)
         from .report import load_known, match_known
         _known = load_known()
         _unlisted = [f for f in ctx.result.findings if match_known(_known, f) is None]
